@@ -81,8 +81,10 @@ def gshell(sh, cls=None):
                 return sph
 
         base = Conv
+    # both documented spellings of the coordinate type are used (chosen by a fixed rule on the shell shape)
+    ctype = sh.ctype if (sh.l + sh.K) % 2 else {"cartesian": "c", "spherical": "p"}[sh.ctype]
     return base(sh.l, np.array(sh.center, dtype=float), np.array(sh.coeffs, dtype=float),
-                np.array(sh.exps, dtype=float), sh.ctype, icenter=sh.icenter)
+                np.array(sh.exps, dtype=float), ctype, icenter=sh.icenter)
 
 
 def gbasis_of(shells):
